@@ -3,6 +3,7 @@
 from __future__ import annotations
 
 import asyncio
+import collections
 import copy
 import sys
 import threading
@@ -12,7 +13,7 @@ from hgmon.build import build_program
 
 LEVEL = "exploration"
 RULE = (
-    "graphs whose functions mutate the objects they receive as signature defaults (list append, dict setitem), at the "
+    "graphs whose functions mutate the objects they receive as signature defaults (list append, dict setitem, a list held by a tuple / NamedTuple default), at the "
     "top level and inside nested graphs (depth 1-2, renamed wrapper inputs), combined with ordinary generated nodes and "
     "bound mutable objects; histories of 2-8 runs: same runner, fresh runner, sync then async, runs of other graphs in "
     "between, values passed partly as keyword arguments; 2-3 concurrent async runs sharing one runner under the "
@@ -28,6 +29,9 @@ DECIDING = ["runs_checked", "defaults_checked", "identity_checked"]
 THOROUGH_SHARDS = 12
 
 
+_Stats = collections.namedtuple("_Stats", ["seen", "total"])
+
+
 def make_spec(rng, name="iso"):
     """DAG with 1-2 mutating nodes (default-valued mutable argument), optionally nested."""
     base = gen.gen_dag(rng, n_nodes=(2, 4), n_inputs=(1, 2), p_default_input=0.0, p_default_edge=0.0, p_gen=0.0, name=name)
@@ -37,7 +41,11 @@ def make_spec(rng, name="iso"):
     muts = []
     for j in range(rng.randint(1, 2)):
         r_ = rng.random()
-        if r_ < 0.4:
+        if r_ < 0.2:
+            # only shallowly immutable: a tuple (or a NamedTuple) holding a list
+            dflt = (["seed"], 2) if rng.random() < 0.5 else _Stats(["seed"], {"n": 0})
+            m = {"k": "fn", "name": f"mut{j}", "fid": f"{name}/mut{j}", "params": [{"n": src}, {"n": f"acc{j}", "d": dflt}], "outs": [f"hist{j}"], "beh": ["tuple_mut", f"acc{j}", src]}
+        elif r_ < 0.5:
             m = {"k": "fn", "name": f"mut{j}", "fid": f"{name}/mut{j}", "params": [{"n": src}, {"n": f"acc{j}", "d": ["seed"]}], "outs": [f"hist{j}"], "beh": ["append_mut", f"acc{j}", src]}
         elif r_ < 0.7:
             m = {"k": "fn", "name": f"mut{j}", "fid": f"{name}/mut{j}", "params": [{"n": src}, {"n": f"acc{j}", "d": {"items": ["seed"]}}], "outs": [f"hist{j}"], "beh": ["nested_mut", f"acc{j}", src]}
@@ -71,7 +79,7 @@ def expected_for(spec, src, inputs, shared):
         for ns in p["nodes"]:
             if ns["k"] == "sub":
                 walk(ns["prog"])
-            elif ns.get("beh") and ns["beh"][0] in ("append_mut", "nested_mut"):
+            elif ns.get("beh") and ns["beh"][0] in ("append_mut", "nested_mut", "tuple_mut"):
                 exp[ns["outs"][0]] = ("seed", inputs[src])
             elif ns.get("beh") and ns["beh"][0] == "setitem_mut":
                 exp[ns["outs"][0]] = tuple(sorted({"seed": 0, inputs[src]: 1}.items()))
